@@ -106,8 +106,13 @@ class Size(tuple):
         return f'torch.Size({list(self)})'
 
 
+FLOAT_MODE = [False]   # value-agnostic runs (trace extraction): plain floats
+
+
 def _garbage():
     """Content of uninitialised memory: an arbitrary value."""
+    if FLOAT_MODE[0]:
+        return 0.0
     if symex.have_engine() and symex.engine().concrete is None:
         e = symex.engine()
         return e.fresh_real(e.autoname('uninit'))
@@ -115,6 +120,8 @@ def _garbage():
 
 
 def _obj(shape, fill=None):
+    if FLOAT_MODE[0] and fill is not None and not isinstance(fill, SymNum):
+        fill = float(fill)
     a = np.empty(shape, dtype=object)
     if fill is None:
         flat = a.reshape(-1) if a.size else a
@@ -128,6 +135,8 @@ def _obj(shape, fill=None):
 def _norm_scalar(x):
     if isinstance(x, SymNum):
         return x
+    if FLOAT_MODE[0] and not isinstance(x, symex.SymBool):
+        return float(x)
     if isinstance(x, (symex.SymBool,)):
         raise NotEncodable('boolean scalar in tensor arithmetic')
     return lift(x)
@@ -735,6 +744,8 @@ def _elementwise_div(a, b):
     def d(x, y):
         if isinstance(y, SymNum) or isinstance(x, SymNum):
             return x / y
+        if FLOAT_MODE[0]:
+            return float(x) / float(y) if y != 0 else float('inf')
         if y == 0:
             # torch returns inf/nan; outside the real-number abstraction
             if symex.have_engine() and symex.engine().concrete is None:
